@@ -109,6 +109,32 @@ def proj_check(kind, case, rec):
             cnt[p] += 1
     ref = acc[used] / cnt[used][:, None]
     rec.close("project-mean=cell-means", float(np.abs(pm[used] - ref).max()), 1e-12)
+    # simplex regions with their DEFAULT rule: a one-point rule is replaced by a sufficient one (cell-wise constant data), a
+    # rule with several but too few points is refused (documented ValueError)
+    if kind in ("triangle", "tetra", "triangle6", "tetra10", "triangle-mini", "tetra-mini"):
+        rdef = gm.region(mesh, info)
+        nqd = rdef.quadrature.npoints
+        wd = rng.standard_normal(ts + (nqd, mesh.ncells))
+        if nqd == 1:
+            rec.label("one-point-default-rule")
+            pd1 = np.asarray(fem.project(wd, rdef)).reshape(npts, size)
+            pint = fem.Field(region, dim=size, values=pd1).interpolate()  # (size, q, c) on the sufficient rule
+            res = pint - wd.reshape(size, 1, mesh.ncells)
+            # L2 projection: the residual is orthogonal to every shape function
+            hq = np.asarray(region.h)
+            hq = np.broadcast_to(hq, hq.shape[:2] + (mesh.ncells,))
+            orth = np.zeros((npts, size))
+            cells_ = np.asarray(mesh.cells)
+            loc = np.einsum("aqc,sqc,qc->sac", hq, res, np.asarray(region.dV))
+            for a_ in range(cells_.shape[1]):
+                np.add.at(orth, cells_[:, a_], loc[:, a_, :].T)
+            rec.close("project(one-point rule)-residual-orthogonal-to-the-basis", float(np.abs(orth).max()) / max(float(np.abs(wd).max() * region.dV.sum()), 1e-12), 1e-10)
+        elif nqd < region.quadrature.npoints:
+            try:
+                fem.project(wd, rdef)
+                rec.require("project(too-few-points)-is-refused", False, {"points": nqd})
+            except ValueError:
+                rec.label("low-order-rule-refused")
 
 
 # ---------------------------------------------------------------------------------------------------------------
